@@ -595,7 +595,7 @@ def gen_block_item(rng, sigs, depth, ctx):
     if r < 0.84:
         return gen_choice(rng, sigs, ctx)
     if r < 0.88:
-        return Jump(rng.choice(sigs)[0])
+        return gen_jump(rng, sigs)
     if depth > 0:
         return gen_if(rng, sigs, depth - 1) if rng.random() < 0.55 else gen_for(rng, sigs, depth - 1)
     return gen_text(rng, ctx)
@@ -738,61 +738,84 @@ def _bodies(story):
     return out
 
 
-def shrink(story: Story, still_fails, budget=400) -> Story:
-    """Greedy: delete whole passages, then single items / branches, while `still_fails(candidate)` holds.
-    `still_fails` must return False for candidates that are not valid stories."""
-    cur = copy.deepcopy(story)
-    calls = 0
-    changed = True
-    while changed and calls < budget:
-        changed = False
+def _edits(cur: Story):
+    """Candidate one-step reductions of `cur`, larger cuts first (each is a fresh deep copy)."""
+    if len(cur.passages) > 1:
         for i in range(len(cur.passages) - 1, -1, -1):
-            if len(cur.passages) <= 1:
-                break
             cand = copy.deepcopy(cur)
             del cand.passages[i]
-            calls += 1
-            if still_fails(cand):
-                cur, changed = cand, True
-        nb = len(_bodies(cur))
-        for bi in range(nb):
-            j = 0
-            while True:
-                bodies = _bodies(cur)
-                if bi >= len(bodies) or j >= len(bodies[bi]) or calls >= budget:
-                    break
-                cand = copy.deepcopy(cur)
-                cb = _bodies(cand)[bi]
-                it = cb[j]
-                del cb[j]
-                calls += 1
-                if still_fails(cand):
-                    cur, changed = cand, True
-                    continue
-                # try to replace a block by one of its bodies' content / drop branches
-                done = False
-                if isinstance(it, If) and len(it.branches) > 1:
-                    for b in range(len(it.branches) - 1, 0, -1):
-                        cand = copy.deepcopy(cur)
-                        del _bodies(cand)[bi][j].branches[b]
-                        calls += 1
-                        if still_fails(cand):
-                            cur, changed, done = cand, True, True
-                            break
-                if not done:
-                    j += 1
-        for p_i, p in enumerate(cur.passages):
-            for attr, empty in (("tags", []), ("params", [])):
-                if getattr(p, attr):
-                    cand = copy.deepcopy(cur)
-                    setattr(cand.passages[p_i], attr, empty)
-                    calls += 1
-                    if still_fails(cand):
-                        cur, changed = cand, True
-        if cur.start is not None:
+            yield cand
+    nb = len(_bodies(cur))
+    for bi in range(nb):
+        for j in range(len(_bodies(cur)[bi]) - 1, -1, -1):
+            it = _bodies(cur)[bi][j]
             cand = copy.deepcopy(cur)
-            cand.start = None
+            del _bodies(cand)[bi][j]
+            yield cand
+            if isinstance(it, If):
+                for b in range(len(it.branches)):            # hoist one branch body in place of the block
+                    cand = copy.deepcopy(cur)
+                    body = _bodies(cand)[bi]
+                    body[j:j + 1] = body[j].branches[b][1]
+                    yield cand
+                for b in range(len(it.branches) - 1, 0, -1):  # drop a branch
+                    cand = copy.deepcopy(cur)
+                    del _bodies(cand)[bi][j].branches[b]
+                    yield cand
+                if len(it.branches) > 1 and it.branches[1][0] is not None:   # drop the first (the @elif becomes the @if)
+                    cand = copy.deepcopy(cur)
+                    del _bodies(cand)[bi][j].branches[0]
+                    yield cand
+            elif isinstance(it, For):
+                cand = copy.deepcopy(cur)
+                body = _bodies(cand)[bi]
+                body[j:j + 1] = body[j].body
+                yield cand
+    for i, p in enumerate(cur.passages):
+        for attr in ("tags", "params"):
+            if getattr(p, attr):
+                cand = copy.deepcopy(cur)
+                setattr(cand.passages[i], attr, [])
+                yield cand
+    if cur.start is not None:
+        cand = copy.deepcopy(cur)
+        cand.start = None
+        yield cand
+    # simplify leaves
+    for bi in range(nb):
+        for j, it in enumerate(_bodies(cur)[bi]):
+            simpler = None
+            if isinstance(it, Text) and (it.src != "Hello" or it.tags):
+                simpler = Text("Hello", it.glue, [])
+            elif isinstance(it, Stmt) and it.code != "n = 1":
+                simpler = Stmt("n = 1")
+            elif isinstance(it, PyBlock) and it.lines != ["x = 1"]:
+                simpler = PyBlock(["x = 1"])
+            elif isinstance(it, Choice) and (it.cond is not None or it.tags or it.text != "Go"):
+                simpler = Choice(it.sticky, None, "Go", it.target, it.args, [], it.block)
+            elif isinstance(it, If) and any(c not in (None, "flag") for c, _ in it.branches):
+                simpler = If([(None if c is None else "flag", b) for c, b in it.branches])
+            elif isinstance(it, For) and (it.var, it.coll) != ("i", "xs"):
+                simpler = For("i", "xs", it.body)
+            if simpler is not None:
+                cand = copy.deepcopy(cur)
+                _bodies(cand)[bi][j] = copy.deepcopy(simpler)
+                yield cand
+
+
+def shrink(story: Story, still_fails, budget=400) -> Story:
+    """Greedy reduction: delete passages / items / branches, hoist block bodies, simplify leaves, while
+    `still_fails(candidate)` holds.  `still_fails` must return False for candidates that are not valid stories."""
+    cur = copy.deepcopy(story)
+    calls = 0
+    progress = True
+    while progress and calls < budget:
+        progress = False
+        for cand in _edits(cur):
             calls += 1
             if still_fails(cand):
-                cur, changed = cand, True
+                cur, progress = cand, True
+                break
+            if calls >= budget:
+                break
     return cur
